@@ -668,3 +668,7 @@ def run(db, ctx):
     for k in ('R1.4', 'R1.5'):
         if k in ctx.floors:
             ctx.floors['R4.7-' + k] = ctx.floors.pop(k)
+    # the striped matrix is compared, cloned and iterated through its row vector: a resize must change the vector with the row count (seed C04-9)
+    from . import C19
+    common.shared_rule(db, ctx, C19.storage_rules, 'R4.9', 'every change of a DenseMatrix row count goes with the same change of its row vector, and the flat views span rows*stride '
+                       'elements (shared with R19.2 / R19.5)', ['R19.2', 'R19.5'])
